@@ -39,12 +39,10 @@ def gen_case(rng):
             s.path = "d/" + rng.choice(sub) + s.path
         indir = sorted(srcs[:k_dir], key=lambda s: walk_order_key(s.path))
         rest = srcs[k_dir:]
-        if rng.random() < 0.5:
-            srcs = indir + rest
-            args = ["d"] + [s.path for s in rest]
-        else:
-            srcs = rest + indir
-            args = [s.path for s in rest] + ["d"]
+        k_before = rng.randint(0, len(rest))      # the directory stands first, last or among the explicit arguments
+        before, after = rest[:k_before], rest[k_before:]
+        srcs = before + indir + after
+        args = [s.path for s in before] + ["d"] + [s.path for s in after]
         # files that do not exist cannot be found by a walk
         srcs = [s for s in srcs if not (s.kind == "missing" and s.path.startswith("d/"))]
     return bsz, form, srcs, opts, args
